@@ -186,6 +186,13 @@ theorem PLe.alloc (s : State) (v : Val) : PLe s (s.alloc v) := by
     exact ⟨Nat.le_refl _, Nat.le_refl _⟩
   · left; intro b; exact F_alloc_new s v b
 
+/-- the allocation of `make_mut`'s clone branch (a shallow `Clone` copies no handle) -/
+theorem PLe.cloneAlloc (s : State) (v v' : Val) (c : Bool) :
+    PLe s ((if c then s else s.cloneHandles v).alloc v') := by
+  cases c
+  · exact (PLe.cloneHandles s v).trans (PLe.alloc _ _)
+  · exact PLe.alloc _ _
+
 /-- `purgePeers x` in a state whose readable tables are those of a state with `InvO`, `InvB` in
 which `x` is live -/
 theorem PLe.purgePeers {s s1 : State} {x : Nat} (hO : s.InvO) (hB : s.InvB)
@@ -627,7 +634,7 @@ theorem applyAct_P_core (s : State) (fh fw : List Nat) (a : Act) (ha : a.respect
         | some v =>
           dsimp only
           split
-          · exact P_congr rfl (((PLe.cloneHandles s v).trans (PLe.alloc _ _)).P hP)
+          · exact P_congr rfl ((PLe.cloneAlloc s v _ v.shallow).P hP)
           · split
             · refine P_congr (emit_heap _ _) ?_
               have hlo := (useRoot_some hu).2
@@ -689,6 +696,12 @@ theorem applyAct_P_core (s : State) (fh fw : List Nat) (a : Act) (ha : a.respect
       · exact (PLe.fail _ _).P hP
     · exact hP
   | setPanic q =>
+    simp only [applyAct]
+    split
+    · refine PLe.P (PLe.modVal ?_) hP
+      intro v b; exact Nat.le_refl _
+    · exact P_badRoot hP q
+  | setShallow q =>
     simp only [applyAct]
     split
     · refine PLe.P (PLe.modVal ?_) hP
@@ -1073,7 +1086,7 @@ theorem applyAct_scriptsC (s : State) (fh fw : List Nat) (a : Act) (h : s.Script
   cases a with
   | new =>
     simp only [applyAct]
-    exact (h.alloc (v := ⟨s.nextVid, [], [], [], false⟩) (fun a ha => by cases ha)).congr rfl rfl rfl
+    exact (h.alloc (v := { vid := s.nextVid, held := [], weaks := [], script := [], panics := false }) (fun a ha => by cases ha)).congr rfl rfl rfl
   | clone r =>
     simp only [applyAct]
     split
@@ -1225,9 +1238,14 @@ theorem applyAct_scriptsC (s : State) (fh fw : List Nat) (a : Act) (h : s.Script
           have hvC : v.C := h.valOf hc hv
           split
           · refine ScriptsC.push ?_ ?_
-            · refine (SLe.emit _ _).scriptsC (ScriptsC.congr (s := (s.cloneHandles v).alloc { v with vid := s.nextVid })
+            · refine (SLe.emit _ _).scriptsC (ScriptsC.congr
+                (s := (if v.shallow then s else s.cloneHandles v).alloc
+                  (if v.shallow then { v with vid := s.nextVid, held := [], weaks := [] }
+                    else { v with vid := s.nextVid }))
                 ?_ rfl rfl rfl)
-              exact ((SLe.cloneHandles s v).scriptsC h).alloc hvC
+              cases v.shallow
+              · exact ((SLe.cloneHandles s v).scriptsC h).alloc hvC
+              · exact h.alloc hvC
             · intro f hf
               simp only [List.mem_cons, List.not_mem_nil, or_false] at hf
               subst hf; trivial
@@ -1292,6 +1310,12 @@ theorem applyAct_scriptsC (s : State) (fh fw : List Nat) (a : Act) (h : s.Script
       · exact (SLe.fail _ _).scriptsC h
     · exact h
   | setPanic q =>
+    simp only [applyAct]
+    split
+    · apply ScriptsC.modVal h
+      intro _; rfl
+    · exact ScriptsC_badRoot h q
+  | setShallow q =>
     simp only [applyAct]
     split
     · apply ScriptsC.modVal h
